@@ -40,15 +40,15 @@ theorem tie_prod_key_shape :
     C18.prodMapIndexKinds = ["var", "var"] ∧
     C18.getNodeUsageSprintfs = ["%s/%s:Namespace,Name", "%s/%s:Namespace,Name"] := by decide
 
-/-- processOneNodePool: which detector cache each call gets, in source order — `runRound`:
+/-- processOneNodePool: which detector cache the calls get (sorted multiset) — `runRound`:
     filterRealAbnormal (node, prod), resetAll (low→node, prodLow→prod, bothLow→node),
     markNormAll (node, prod); and the continueEvictionCond closure refers to BOTH caches
     (`drained_node_detector_reset`: the prod pass resets the prod detector). -/
 theorem tie_detector_caches :
     C18.detectorCacheUse =
       ["filterRealAbnormalNodes:nodeAnomalyDetectors", "filterRealAbnormalNodes:prodAnomalyDetectors",
-       "resetNodesAsNormal:nodeAnomalyDetectors", "resetNodesAsNormal:prodAnomalyDetectors",
-       "resetNodesAsNormal:nodeAnomalyDetectors",
+       "resetNodesAsNormal:nodeAnomalyDetectors", "resetNodesAsNormal:nodeAnomalyDetectors",
+       "resetNodesAsNormal:prodAnomalyDetectors",
        "tryMarkNodesAsNormal:nodeAnomalyDetectors", "tryMarkNodesAsNormal:prodAnomalyDetectors"] ∧
     C18.continueCondCaches = ["nodeAnomalyDetectors", "prodAnomalyDetectors"] := by decide
 
